@@ -1131,20 +1131,23 @@ theorem abs_snoc_of_nonempty (st : State α) (hI : Inv st) (hne : st.isEmpty = f
     every `ρ = 1/⟨y,s⟩` in `H` is a genuine reciprocal (`ρ·⟨y,s⟩ = 1`) and `H γ₀ st.abs` *is* the
     BFGS matrix `(I−ρsyᵀ)H(I−ρysᵀ)+ρssᵀ` of the stored pairs — no use of the field convention
     `1/0 = 0`.  Moreover that matrix is symmetric and satisfies the secant equation for the newest
-    stored pair. -/
+    stored pair.  `hq`: the vector has the dimension the object was resized to (the C++ would index
+    out of bounds otherwise; the list model would silently truncate — audit-2 B7); the result then
+    has that dimension too. -/
 theorem apply_eq_dense_bfgs (p : Params α) (st : State α) (hG : GoodC p st) (q : Vec α) (γ : α)
-    (hne : st.isEmpty = false) :
+    (hq : q.length = st.n) (hne : st.isEmpty = false) :
     (apply p st q γ).2.1 = H (applyGamma p st γ) st.abs q ∧ (apply p st q γ).2.2 = true ∧
     HistCurvOK st.abs ∧ WF st.n st.abs ∧
     (∀ c ∈ st.pairs, c.rho * dot c.y c.s = 1) ∧
     (∀ γ0 u v, u.length = st.n → v.length = st.n →
       dot u (H γ0 st.abs v) = dot (H γ0 st.abs u) v) ∧
-    (∃ older s y, st.abs = older ++ [(s, y)] ∧ dot y s ≠ 0 ∧ ∀ γ0, H γ0 st.abs y = s) := by
+    (∃ older s y, st.abs = older ++ [(s, y)] ∧ dot y s ≠ 0 ∧ ∀ γ0, H γ0 st.abs y = s) ∧
+    (apply p st q γ).2.1.length = st.n := by
   obtain ⟨⟨hI, hm, hρ⟩, hc, hd⟩ := hG
   have hcA := (curvOK_abs st).mp hc
   have hdA := (dimOK_abs st).mp hd
   obtain ⟨h1, h2⟩ := apply_eq_dense p st hI hρ q γ hne
-  refine ⟨h1, h2, hcA, hdA, ?_, ?_, ?_⟩
+  refine ⟨h1, h2, hcA, hdA, ?_, ?_, ?_, by rw [h1]; exact H_length _ _ hdA q hq⟩
   · intro c hcm
     rw [hρ c hcm]; exact one_div_mul_cancel (hc c hcm)
   · intro γ0 u v hu hv; exact H_symm γ0 st.abs hdA u v hu hv
@@ -1181,7 +1184,7 @@ theorem applyGamma_pos (p : Params α) (st : State α) (hG : GoodC p st) (hP : P
 theorem apply_posdef (p : Params α) (st : State α) (hG : GoodC p st) (hP : PosOK st) (q : Vec α)
     (γ : α) (hne : st.isEmpty = false) (hγ : p.curvature = true ∨ γ ≠ 0) (hq : q.length = st.n)
     (hq0 : q ≠ List.replicate st.n 0) : 0 < dot q (apply p st q γ).2.1 := by
-  rw [(apply_eq_dense_bfgs p st hG q γ hne).1]
+  rw [(apply_eq_dense_bfgs p st hG q γ hq hne).1]
   exact H_posdef _ (applyGamma_pos p st hG hP γ hne hγ) st.abs ((dimOK_abs st).mp hG.2.2)
     ((posOK_abs st).mp hP) q hq hq0
 
@@ -1232,6 +1235,7 @@ theorem run_posOK (p : Params α) (hfp : p.forcePosDef = true) (hm : 1 ≤ p.mem
     are non-zero; that matrix is symmetric and maps the newest stored `y` to the newest stored `s`. -/
 theorem reachable_apply_dense (p : Params α) (hmd : 0 ≤ p.minDivFac) (n : Nat) (st0 : State α)
     (h0 : resize p n = some st0) (ops : List (Op α)) (hrun : RunOK p st0 ops) (q : Vec α) (γ : α)
+    (hq : q.length = (ops.foldl (step p) st0).n)
     (hne : (ops.foldl (step p) st0).isEmpty = false) :
     (ops.foldl (step p) st0).abs = ops.foldl (specStep p) [] ∧
     HistCurvOK (ops.foldl (specStep p) []) ∧
@@ -1241,7 +1245,8 @@ theorem reachable_apply_dense (p : Params α) (hmd : 0 ≤ p.minDivFac) (n : Nat
     (∀ γ0 u v, u.length = (ops.foldl (step p) st0).n → v.length = (ops.foldl (step p) st0).n →
       dot u (H γ0 (ops.foldl (specStep p) []) v) = dot (H γ0 (ops.foldl (specStep p) []) u) v) ∧
     (∃ older s y, ops.foldl (specStep p) [] = older ++ [(s, y)] ∧ dot y s ≠ 0 ∧
-      ∀ γ0, H γ0 (ops.foldl (specStep p) []) y = s) := by
+      ∀ γ0, H γ0 (ops.foldl (specStep p) []) y = s) ∧
+    (apply p (ops.foldl (step p) st0) q γ).2.1.length = (ops.foldl (step p) st0).n := by
   have hm : 1 ≤ p.memory := by
     by_contra hlt
     have := (resize_spec p n).1 (by omega)
@@ -1249,9 +1254,9 @@ theorem reachable_apply_dense (p : Params α) (hmd : 0 ≤ p.minDivFac) (n : Nat
   obtain ⟨hG0, ha0, _⟩ := resize_goodC p n st0 h0
   obtain ⟨hG, habs⟩ := run_goodC p hm hmd ops st0 hG0 hrun
   rw [ha0] at habs
-  have := apply_eq_dense_bfgs p _ hG q γ hne
+  have := apply_eq_dense_bfgs p _ hG q γ hq hne
   rw [habs] at this
-  exact ⟨habs, this.2.2.1, this.1, this.2.1, this.2.2.2.2.2.1, this.2.2.2.2.2.2⟩
+  exact ⟨habs, this.2.2.1, this.1, this.2.1, this.2.2.2.2.2.1, this.2.2.2.2.2.2.1, this.2.2.2.2.2.2.2⟩
 
 /-- **… and it is positive definite when positive curvature is enforced** (`force_pos_def`; forced
     updates and `scale_y` factors positive, `RunPos`): `⟨q, apply(q)⟩ > 0` for every `q ≠ 0`. -/
@@ -1282,9 +1287,15 @@ theorem reachable_apply_posdef (p : Params α) (hfp : p.forcePosDef = true) (hmd
 /-- A **forced** update with zero curvature is stored (that is what `forced` means) and breaks the
     invariant: afterwards the history contains a pair for which no BFGS matrix exists.  The C++
     stores `ρ = 1/0 = +inf` there and `apply` returns NaN until the pair is evicted or the object
-    is reset (run on the real code by `checks/c09.py`; the only in-tree caller of forced updates,
-    `PANOCOCPSolver`, uses `apply_masked` exclusively, which re-tests every pair on `J` and skips
-    it — `applyMasked_eq_restricted`, `restrictHist_curv`). -/
+    is reset (run on the real code by `checks/c09.py` on every run, and counted).
+    THIS POINT IS REACHABLE IN-TREE (audit-2 #3): `StructuredLBFGSDirection::update` always passes
+    `forced = true` (structured-lbfgs.hpp), and its all-indices-free branch calls the unmasked
+    `lbfgs.apply` (structured-lbfgs.tpp); with `y = 0` or `s = 0` (e.g. a linear `ψ`, or a step that
+    did not move) the direction is NaN — PANOC / ZeroFPR then discard it (`q.allFinite()` test) and
+    reset the provider.  The other in-tree caller of forced updates, `PANOCOCPSolver`, uses
+    `apply_masked` only, which re-tests every pair on `J` and skips such pairs
+    (`applyMasked_eq_restricted`, `restrictHist_curv`).  The theorems about `apply` therefore hold
+    for runs satisfying `RunOK`, and the direction-provider theorems must carry `GoodC`, not `Good`. -/
 theorem forced_zero_curvature_breaks (p : Params α) (st : State α) (hG : Good p st) (s y : Vec α)
     (pTp : α) (h0 : dot y s = 0) :
     (updateSy p st s y pTp true).2 = true ∧ ¬ CurvOK (updateSy p st s y pTp true).1 := by
@@ -1302,7 +1313,8 @@ theorem forced_zero_curvature_breaks (p : Params α) (st : State α) (hG : Good 
   exact (curvOK_abs _).mp hc (s, y) hmem h0
 
 /-- `scale_y(0)` on a non-empty history likewise leaves only zero-curvature pairs (`y = 0`,
-    C++: `ρ *= 1/0`).  The only in-tree caller passes `γₖ/old_γₖ`, a ratio of positive step sizes. -/
+    C++: `ρ *= 1/0`).  The only in-tree caller (`LBFGSDirection::changed_γ`) passes `γₖ/old_γₖ`, a
+    ratio of positive step sizes. -/
 theorem scaleY_zero_breaks (st : State α) (hI : Inv st) (hne : st.isEmpty = false) :
     ¬ CurvOK (scaleY st 0) := by
   intro hc
@@ -1344,6 +1356,114 @@ theorem restrictHist_curv (p : Params α) (hmd : 0 ≤ p.minDivFac) (fJ : Bool) 
     obtain ⟨sy0, hv, he, hs⟩ := key sy hsy
     rw [he]
     exact updateValid_pos p _ _ _ hv hfp hmd hs
+
+/-! ### dimensions (audit-2 B7): nothing here relies on `zip` truncating an ill-sized argument -/
+
+theorem axmyJ_length' (fJ : Bool) (J : List Nat) (a : α) (x y : Vec α)
+    (h : fJ = true → x.length = y.length) : (axmyJ fJ J a x y).length = y.length := by
+  cases fJ
+  · exact axmyJ_length J a x y
+  · simp only [axmyJ, if_true]
+    rw [length_vsub _ _ (by rw [length_smul]; exact (h rfl).symm)]
+
+theorem scalJ_length' (fJ : Bool) (J : List Nat) (a : α) (x : Vec α) :
+    (scalJ fJ J a x).length = x.length := by
+  cases fJ
+  · exact scalJ_length J a x
+  · simp [scalJ]
+
+theorem mrev_q_length (p : Params α) (fJ : Bool) (J : List Nat) (slots : List (Slot α)) (n : Nat)
+    (is : List Nat) (a : MaskAcc α) (ha : a.q.length = n)
+    (hs : ∀ i ∈ is, fJ = true → (slots.getD i default).y.length = n) :
+    (is.foldl (maskedRevStep p fJ J slots) a).q.length = n := by
+  induction is generalizing a with
+  | nil => exact ha
+  | cons i is ih =>
+    rw [List.foldl_cons]
+    apply ih _ _ (fun k hk => hs k (List.mem_cons_of_mem _ hk))
+    unfold maskedRevStep
+    simp only []
+    split_ifs
+    all_goals first
+      | exact ha
+      | (show (axmyJ _ _ _ _ _).length = n
+         rw [axmyJ_length' _ _ _ _ _ (fun hf => by rw [hs i (List.mem_cons_self) hf, ha]), ha])
+
+theorem mfwd_q_length (fJ : Bool) (J : List Nat) (slots : List (Slot α)) (al : List α)
+    (skip : List Bool) (n : Nat) (is : List Nat) (q : Vec α) (hq : q.length = n)
+    (hs : ∀ i ∈ is, fJ = true → (slots.getD i default).s.length = n) :
+    (is.foldl (maskedFwdStep fJ J slots al skip) q).length = n := by
+  induction is generalizing q with
+  | nil => exact hq
+  | cons i is ih =>
+    rw [List.foldl_cons]
+    apply ih _ _ (fun k hk => hs k (List.mem_cons_of_mem _ hk))
+    unfold maskedFwdStep
+    simp only []
+    split_ifs
+    · exact hq
+    · rw [axmyJ_length' _ _ _ _ _ (fun hf => by rw [hs i (List.mem_cons_self) hf, hq]), hq]
+
+/-- `apply_masked` on a vector of the object's dimension returns a vector of that dimension
+    (stored vectors have that dimension: `DimOK`). -/
+theorem applyMasked_length (p : Params α) (st : State α) (hI : Inv st) (hd : DimOK st) (q : Vec α)
+    (γ : α) (J : List Nat) (hq : q.length = st.n) (q' : Vec α) (ok : Bool)
+    (h : maskedOut (applyMasked p st q γ J) = some (q', ok)) : q'.length = st.n := by
+  have hmem : ∀ i ∈ st.revIdx, st.slots.getD i default ∈ st.pairs := by
+    intro i hi
+    have hmap : (st.revIdx.map fun i => st.slots.getD i default) = st.pairs.reverse :=
+      revIdx_map_slot st hI
+    have : st.slots.getD i default ∈ st.pairs.reverse := by
+      rw [← hmap]; exact List.mem_map.mpr ⟨i, hi, rfl⟩
+    exact List.mem_reverse.mp this
+  have hrev : st.revIdx = st.fwdIdx.reverse := foreachRev_eq_reverse _ _ _ hI.idx_lt
+  have hmemf : ∀ i ∈ st.fwdIdx, st.slots.getD i default ∈ st.pairs := by
+    intro i hi; apply hmem; rw [hrev]; exact List.mem_reverse.mpr hi
+  unfold applyMasked at h
+  simp only [] at h
+  generalize (if p.curvature then (-1 : α) else γ) = γ0 at h
+  split_ifs at h with h1 h2 h3
+  · simp only [maskedOut, Option.some.injEq, Prod.mk.injEq] at h; rw [← h.1]; exact hq
+  · simp [maskedOut] at h
+  · simp only [maskedOut, Option.some.injEq, Prod.mk.injEq] at h
+    rw [← h.1]
+    exact mrev_q_length p _ J st.slots st.n st.revIdx _ hq (fun i hi _ => (hd _ (hmem i hi)).2)
+  · simp only [maskedOut, Option.some.injEq, Prod.mk.injEq] at h
+    rw [← h.1]
+    apply mfwd_q_length _ J st.slots _ _ st.n st.fwdIdx _ _ (fun i hi _ => (hd _ (hmemf i hi)).1)
+    rw [scalJ_length']
+    exact mrev_q_length p _ J st.slots st.n st.revIdx _ hq (fun i hi _ => (hd _ (hmem i hi)).2)
+
+/-- **Masked variant, sized form (the property theorem; audit-2 B7)**: for a vector of the object's
+    dimension (`hq`) and `J` duplicate-free and in range of that dimension (`hJ`) — what the C++
+    requires, it would index out of bounds otherwise — `apply_masked` returns a vector of that
+    dimension, together with everything `applyMasked_eq_restricted` states; the restricted history is
+    well-formed of dimension `|J|` (or `n` when `J` is full), so no `zip` truncation is involved. -/
+theorem applyMasked_eq_restricted_sized (p : Params α) (st : State α) (hI : Inv st) (hd : DimOK st)
+    (q : Vec α) (γ : α) (J : List Nat) (hq : q.length = st.n) (hne : st.isEmpty = false)
+    (hcb : cbfgsEnabled p.cbfgsAlpha p.cbfgsEps = false)
+    (hnn : ∀ x : α, RealLike.isNaN x = false)
+    (hJ : JOK (q.length == J.length) J st.n) :
+    ∃ q', maskedOut (applyMasked p st q γ J) = some (q', !maskedFail p st q γ J) ∧
+      q'.length = st.n ∧
+      (maskedFail p st q γ J = true → q' = q) ∧
+      (maskedFail p st q γ J = false →
+        G (q.length == J.length) J q' =
+          H (maskedGamma p st q γ J) (restrictHist p (q.length == J.length) J st.abs)
+            (G (q.length == J.length) J q) ∧
+        ((q.length == J.length) = false → ∀ j, j ∉ J → vget q' j = vget q j)) ∧
+      WF (if (q.length == J.length) then st.n else J.length)
+        (restrictHist p (q.length == J.length) J st.abs) := by
+  obtain ⟨q', hout, hfq, hsp⟩ :=
+    applyMasked_eq_restricted p st hI q γ J hne hcb hnn (hq ▸ hJ)
+  refine ⟨q', hout, applyMasked_length p st hI hd q γ J hq q' _ hout, hfq, hsp, ?_⟩
+  intro sy hsy
+  simp only [restrictHist, List.mem_map, List.mem_filter] at hsy
+  obtain ⟨sy0, ⟨hm0, _⟩, rfl⟩ := hsy
+  have h0 := (dimOK_abs st).mp hd sy0 hm0
+  cases hf : (q.length == J.length)
+  · simp [G]
+  · simp only [G, if_true]; exact h0
 
 section reach_examples
 
@@ -1401,12 +1521,12 @@ example :
     (∀ γ0 : ℚ, H γ0 [([1, 0], [4, -2]), ([0, 1], [2, 6])] [2, 6] = [0, 1]) ∧
     0 < dot [1, 0] (apply pEx (opsEx.foldl (step pEx) st0Ex) [1, 0] (-1)).2.1 := by
   have h := reachable_apply_dense pEx (le_refl _) 2 st0Ex resize_ex opsEx runPos_ex.runOK [1, 0] (-1)
-    reached_ex.1
+    (by rw [nEx]; rfl) reached_ex.1
   have hp := reachable_apply_posdef pEx rfl (le_refl _) 2 st0Ex resize_ex opsEx runPos_ex [1, 0] (-1)
     reached_ex.1 (Or.inl rfl) (by rw [nEx]; rfl) (by rw [nEx]; simp)
   rw [reached_ex.2] at h
   refine ⟨h.2.2.1, ?_, hp.2⟩
-  obtain ⟨older, s, y, he, _, hs⟩ := h.2.2.2.2.2
+  obtain ⟨older, s, y, he, _, hs⟩ := h.2.2.2.2.2.1
   have : older ++ [(s, y)] = [([1, 0], [4, -2])] ++ [([0, 1], [2, 6])] := he.symm
   obtain ⟨_, h2⟩ := List.append_inj' this rfl
   simp only [List.cons.injEq, Prod.mk.injEq, and_true] at h2
@@ -1451,6 +1571,21 @@ def stNeg : State ℚ := (updateSy pNeg st0Ex [1, 0] [-2, 1] 0 false).1
 example : maskedOut (applyMasked pNeg stNeg [1, 2] (-1) [0, 1]) = some ([-1, -1], true) ∧
     (apply pNeg stNeg [1, 2] (-1)).2.1 = [-1, -1] := by
   constructor <;> decide +kernel
+
+/-- All hypotheses of `applyMasked_eq_restricted_sized` at once (dimension 2, `J = {0}` in range and
+    duplicate-free, one stored pair of negative curvature, no `force_pos_def`): the call succeeds and
+    returns a vector of dimension 2. -/
+example : ∃ q' : Vec ℚ, maskedOut (applyMasked pNeg stNeg [1, 2] (-1) [0]) = some (q', true) ∧
+    q'.length = 2 := by
+  have hG : GoodC pNeg stNeg :=
+    updateSy_goodC pNeg (le_refl _) st0Ex (resize_goodC pEx 2 st0Ex resize_ex).1 [1, 0] [-2, 1] 0 false
+      ⟨rfl, rfl, by simp⟩
+  obtain ⟨q', hout, hlen, _, _, _⟩ := applyMasked_eq_restricted_sized pNeg stNeg hG.1.1 hG.2.2 [1, 2] (-1) [0]
+    (by decide +kernel) (by decide +kernel) rfl (fun _ => rfl)
+    (fun _ => ⟨by simp, by intro j hj; simp at hj; subst hj; decide +kernel⟩)
+  have hf : maskedFail pNeg stNeg [1, 2] (-1) [0] = false := by decide +kernel
+  rw [hf] at hout
+  exact ⟨q', hout, by rw [hlen]; decide +kernel⟩
 
 end reach_examples
 
